@@ -39,7 +39,7 @@ struct Interrupted {
     out: RunOut,
     /// join_line probe events seen after the flag was cleared
     join_lines_after: usize,
-    #[allow(dead_code)]
+    /// file_line probe events (= lines fetched from an input file) seen after the flag was cleared
     file_lines_after: usize,
     /// file_line probes that found the flag still set (= lines legitimately taken)
     lines_taken_while_running: usize,
@@ -104,7 +104,7 @@ impl Property for C19 {
     fn rule(&self) -> String {
         "a statement (plain, DISTINCT, LIMIT, aggregate, join) x an input of <= 12 lines over 1-2 files (one line in eight cases unreadable, i.e. invalid UTF-8; one case in forty repeats its lines to 4200-9000 and tries six interrupt points instead of all; one in forty is a GROUP BY over 300-1800 lines with hundreds of groups) x a joined file of <= 40 lines; EVERY interrupt point of the case is tried: the flag is cleared at the e-th \
          `file_line` probe (before line e is taken), at the e-th `join_line` probe (while the joined file is loaded) and after the j-th printed record. Oracle against the uninterrupted run: execute() is Ok; \
-         no input line is consumed after the flag is cleared (total_lines = e-1 / unchanged; at most 10 further joined-file lines while loading); the captured output is a prefix of the uninterrupted output; \
+         no input line is consumed after the flag is cleared (total_lines = e-1 / unchanged; no further line is even fetched - from this file or from the following ones - beyond the one already in hand; at most 10 further joined-file lines while loading); the captured output is a prefix of the uninterrupted output; \
          an interrupted aggregate prints the table a fresh batch run prints for exactly the consumed lines. A slice of cases also runs through the real FollowFileExecutor in a child process. \
          Non-trivial: an interrupt strictly inside the input (>= 1 line before and after); distinct by case."
             .to_string()
@@ -297,6 +297,13 @@ impl Property for C19 {
                     format!("{}: execute() reported {:?}\n  {}", where_, r.out.result, context),
                 ));
             }
+            if r.file_lines_after > 0 {
+                // the flag was cleared before line e was taken: nothing more is fetched, from this file or from the next ones
+                return Err(Failure::new(
+                    format!("{}: lines fetched from the input after the interrupt", kind),
+                    format!("{}: {} further line(s) were fetched from the input files (one per remaining file?)\n  {}", where_, r.file_lines_after, context),
+                ));
+            }
             if r.out.total_lines != (e - 1) as u64 {
                 return Err(Failure::new(
                     format!("{}: lines-consumed-after-interrupt", kind),
@@ -331,6 +338,13 @@ impl Property for C19 {
                 let where_ = format!("interrupt after the {}. printed line", j);
                 if r.out.result.is_err() && full.result.is_ok() {
                     return Err(Failure::new(format!("{}: error-after-interrupt", kind), format!("{}: execute() reported {:?}\n  {}", where_, r.out.result, context)));
+                }
+                if r.file_lines_after > 1 {
+                    // the line after the one that was being processed may already have been fetched; nothing beyond it
+                    return Err(Failure::new(
+                        format!("{}: lines fetched from the input after the interrupt", kind),
+                        format!("{}: {} further lines were fetched from the input files\n  {}", where_, r.file_lines_after, context),
+                    ));
                 }
                 if r.out.total_lines as usize != r.lines_taken_while_running {
                     return Err(Failure::new(
